@@ -98,7 +98,7 @@ func Atomicity(root string, snap run.Snapshot, exp *ref.Result, ti *TraceIndex, 
 	}
 	// confinement of unfinished work
 	for _, p := range snap.Files() {
-		if pre[p] || legit[p] || strings.HasSuffix(p, ".audit.json") {
+		if pre[p] || legit[p] || IsAuditFile(p) {
 			continue
 		}
 		inTemp := false
